@@ -63,6 +63,8 @@ def vtext(v, V):
         return str(v["i"])
     if ty == "nil":
         return "nil"
+    if ty == "bool":
+        return "true" if v["i"] else "false"
     raise ValueError(v)
 
 
